@@ -20,6 +20,7 @@ import (
 	"regexp"
 	"slices"
 	"strings"
+	"sync"
 	"time"
 
 	"github.com/conduitio/conduit-commons/database"
@@ -45,6 +46,12 @@ type Service struct {
 
 	instances     map[string]*Instance
 	instanceNames map[string]bool
+
+	// statusMu serializes UpdateStatus. Unlike the rest of this service it is
+	// called from several goroutines: the lifecycle cleanup goroutine of an
+	// ending run and the API goroutine starting the next run both write the
+	// status (and Error) of the same instance and encode it for the store.
+	statusMu sync.Mutex
 }
 
 // NewService initializes and returns a pipeline Service.
@@ -385,6 +392,8 @@ func (s *Service) UpdateStatus(ctx context.Context, id string, status Status, er
 	if err != nil {
 		return err
 	}
+	s.statusMu.Lock()
+	defer s.statusMu.Unlock()
 	s.updateOldStatusMetrics(pipeline)
 	pipeline.SetStatus(status)
 
